@@ -1,9 +1,10 @@
 -------------------------------- MODULE MC_ReadOnly --------------------------------
 EXTENDS ReadOnly, Json
-CONSTANTS MaxOps, DEV_OccAddsOrientation, DEV_PbWriteTouchesDefaultdict, ArchSize
+CONSTANTS MaxOps, DEV_OccAddsOrientation, DEV_PbWriteTouchesDefaultdict, DEV_NetworkCopyShallow, ArchSize
 VARIABLES arch, snap, warm, hist
 vars == <<arch, snap, warm, hist>>
-Dev == [occAddsOrientation |-> DEV_OccAddsOrientation, pbWriteTouchesDefaultdict |-> DEV_PbWriteTouchesDefaultdict]
+Dev == [occAddsOrientation |-> DEV_OccAddsOrientation, pbWriteTouchesDefaultdict |-> DEV_PbWriteTouchesDefaultdict,
+        networkCopyShallow |-> DEV_NetworkCopyShallow]
 Init == /\ arch \in {a \in SUBSET Features : Cardinality(a) <= ArchSize} /\ snap = Snap0(arch) /\ warm = {} /\ hist = <<>>
 Do(op) == /\ Len(hist) < MaxOps
           /\ snap' = Effect(Dev, arch, warm, op, snap) /\ warm' = Warm(warm, op) /\ hist' = Append(hist, op)
